@@ -307,6 +307,8 @@ def main():
         for t in traces:
             for entry in v[t["id"]]:
                 cl = pipeline.clause_of(entry)
+                if cl == "H.monitor_error":
+                    cl = pid + ".monitor_error"      # the trace is so far from any behaviour that the monitor cannot even follow it
                 if cl.startswith(conf["prefixes"]):
                     clause_counts[cl] += 1
                     verdict.report(cl, features(t["prog"]),
